@@ -118,15 +118,17 @@ func runC12(c *Ctx) {
 		// multi arm continues after an error: the error edge of the update loop leads back to the loop, not to a return
 		GU := a.GnmiUpdate
 		okCont := false
-		for _, b := range GU.Blocks {
-			for _, in := range b.Instrs {
-				call, ok := in.(*ssa.Call)
-				if !ok || calleeName(&call.Call) != "(*errlist.List).Add" {
-					continue
-				}
-				// after errs.Add the block jumps back into a loop (no return reachable without passing the loop header)
-				if len(b.Succs) == 1 && inLoopWithout(b, nil) {
-					okCont = true
+		for _, uf := range unitFns(c.P, GU, a.gnmiUpdate, a.gnmiRemove) {
+			for _, b := range uf.Blocks {
+				for _, in := range b.Instrs {
+					call, ok := in.(*ssa.Call)
+					if !ok || calleeName(&call.Call) != "(*errlist.List).Add" {
+						continue
+					}
+					// after errs.Add the block jumps back into a loop (no return reachable without passing the loop header)
+					if len(b.Succs) == 1 && inLoopWithout(b, nil) {
+						okCont = true
+					}
 				}
 			}
 		}
